@@ -50,6 +50,7 @@ def run(ctx):
     cexs = c07.run_lengths(ctx, ('C06',))
     cexs += c07.run_plan(ctx, ('C06',), ('ref_encode', 'ref_decode'))
     c07.finish_cases(ctx, cexs, ('C06',))
+    if getattr(ctx, 'unreproduced', None) and not ctx.violations and not failed: raise CheckInconclusive('solver model does not reproduce natively (encoding error?): ' + json.dumps(ctx.unreproduced[0])[:800])
     if getattr(ctx, 'deferred', None) and not ctx.violations and not failed:
         raise CheckInconclusive('part of the check cannot be executed on the current code and no violation was found by the rest: ' + '; '.join(ctx.deferred)[:1500])
     if failed and not ctx.violations:
